@@ -320,6 +320,9 @@ func execCand(r *mon.Run, c *Cand, rng *rand.Rand) {
 		r.Violate(pi.Key(), fmt.Sprintf("registering %s %q (class %s/%s) panicked: %s", c.Rule.Verb, c.Rule.Tmpl, cl, reason, pi.Value), c)
 		return
 	}
+	if r.SampleN() < 6 && (c16seq%997 == 3 || c16seq < 3) {
+		r.Sample(map[string]any{"origin": c.Origin, "verb": c.Rule.Verb, "template": c.Rule.Tmpl, "body": c.Rule.Body, "response_body": c.Rule.Resp, "class": cl.String(), "reason": reason, "rejected": rerr != nil, "populated_mux": c.Base != nil})
+	}
 	shapeKey := cl.String() + ":" + reason
 	if t != nil {
 		shapeKey += ":" + t.Shape()
